@@ -1,5 +1,5 @@
 (* C07 - DLQ window: property theorems only. *)
-From Verif Require Import Dlq.Window Dlq.WindowProofs.
+From Verif Require Import Dlq.Window Dlq.WindowProofs Dlq.Routing Dlq.RoutingProofs.
 
 Theorem C07_window_v1_refines_spec : forall size t ops,
   run_v1 (new_win size t) ops = run_spec size t init_sp ops.
@@ -29,6 +29,58 @@ Theorem C07_refusal_is_final : forall size t s,
   forall ops, run_spec size t s (true :: ops) = false :: map negb ops.
 Proof. exact refusal_is_final. Qed.
 Print Assumptions C07_refusal_is_final.
+
+(* ---- routing: rejected records to the DLQ, acknowledgments to the source ---- *)
+
+(* v1 does exactly what the rule says: the first m records (m and the stop decision computed by
+   the rule) get [DlqOk k; SrcAck k] if rejected and [SrcAck k] otherwise, in source order,
+   and nothing else happens - for every window, outcome sequence and DLQ failure point *)
+Theorem C07_routing_v1_is_spec : forall size t rs,
+  let (es, tm) := route_v1 (new_win size t) false 0 rs in
+  let (m, st) := spec_route size t init_sp rs in
+  es = events_of 0 rs m /\ st = is_some tm.
+Proof. exact routing_v1_is_spec. Qed.
+Print Assumptions C07_routing_v1_is_spec.
+
+(* and that behaviour satisfies every clause of the monitor [route_ok] (the property) *)
+Theorem C07_routing_v1_satisfies_property : forall size t rs,
+  let (es, tm) := route_v1 (new_win size t) false 0 rs in
+  route_ok size t rs es (is_some tm) = true.
+Proof. exact routing_v1_satisfies_property. Qed.
+Print Assumptions C07_routing_v1_satisfies_property.
+
+(* v2, for every way of cutting the stream into batches: exactly the same records are
+   acknowledged (the first m, once, in order) and the pipeline stops in the same cases.
+   _partial: the remaining clauses of [route_ok] for v2 (DLQ confirmations in source order,
+   confirmation before acknowledgment) are evaluated by the monitor on every observed run but
+   are not proved for the v2 model. *)
+Theorem C07_routing_v2_handled_and_stop_partial : forall size t bs,
+  let (es, tm) := route_v2 (new_win size t) 0 bs in
+  let (m, st) := spec_route size t init_sp (concat bs) in
+  acks_of es = seq 0 m /\ is_some tm = st.
+Proof. exact routing_v2_handled_and_stop. Qed.
+Print Assumptions C07_routing_v2_handled_and_stop_partial.
+
+Theorem C07_routing_parity : forall size t bs,
+  let (es1, tm1) := route_v1 (new_win size t) false 0 (concat bs) in
+  let (es2, tm2) := route_v2 (new_win size t) 0 bs in
+  acks_of es1 = acks_of es2 /\ is_some tm1 = is_some tm2.
+Proof. exact routing_parity. Qed.
+Print Assumptions C07_routing_parity.
+
+(* a stop always leaves a rejected record unacknowledged: the first unhandled record *)
+Theorem C07_stop_leaves_rejected_record_unacked : forall size t rs s,
+  let (m, st) := spec_route size t s rs in
+  st = true -> m < length rs /\ fst (nth m rs (false, false)) = true.
+Proof. exact spec_stops_at_first_unhandled. Qed.
+Print Assumptions C07_stop_leaves_rejected_record_unacked.
+
+Example C07_routing_nonvacuous :
+  spec_route 3 1 init_sp [(false,false); (true,false); (false,false); (true,true); (false,false)]
+  = (3, true)
+  /\ route_v2 (new_win 3 1) 0 [[(false,false); (true,false)]; [(false,false); (true,true); (false,false)]]
+  = ([SrcAck 0; DlqOk 1; SrcAck 1; SrcAck 2], Some true).
+Proof. vm_compute. split; reflexivity. Qed.
 
 (* non-vacuity: a concrete window in which a nack is tolerated and a later one is not *)
 Example C07_nonvacuous :
